@@ -5,3 +5,4 @@ pub mod c12;
 pub mod c09;
 pub mod c10;
 pub mod c19;
+pub mod c16;
